@@ -247,6 +247,9 @@ func flushFails(sink *Sink) {
 
 func directForCase(op *Sx) int {
 	if hasPanicCallback(op) {
+		if op.Head() == "list" && wants("C12") {
+			return directForListPanic(op)
+		}
 		return 0
 	}
 	if op.Head() == "list" {
